@@ -2,6 +2,7 @@ package props
 
 import (
 	"bytes"
+	"fmt"
 	"math"
 
 	"github.com/pion/rtcp"
@@ -41,6 +42,12 @@ func quantiseInPlace(q rtcp.Packet) {
 	case *rtcp.ReceiverReport:
 		for len(v.ProfileExtensions)%4 != 0 {
 			v.ProfileExtensions = append(v.ProfileExtensions, 0)
+		}
+	case *rtcp.TransportLayerCC:
+		for _, d := range v.RecvDeltas {
+			if d != nil && d.Delta >= 0 {
+				d.Delta -= d.Delta % 250
+			}
 		}
 	case *rtcp.ReceiverEstimatedMaximumBitrate:
 		if e, m, ok := ref.REMBEncode(v.Bitrate); ok {
@@ -476,6 +483,21 @@ func valueOf(cs *core.Case, o gen.Opts) rtcp.Packet {
 	p := gen.Packet(cs.R, k, o)
 	if cs.Idx/uint64(gen.NumKinds)%4 == 3 && k != gen.Raw {
 		p = correlate(cs.R, p) // a quarter of the values: two numeric fields tied to each other
+	}
+	if cs.Idx/uint64(gen.NumKinds)%8 == 5 && k != gen.Raw && k != gen.TWCC {
+		// an eighth of the values: the value has been used (marshalled, sized, printed, asked for its
+		// SSRCs) and is then edited in place: anything remembered about its old shape is stale
+		core.Guard(func() {
+			_, _ = p.Marshal()
+			_ = p.MarshalSize()
+			_ = p.DestinationSSRC()
+			if st, ok := p.(fmt.Stringer); ok && p.MarshalSize() <= 4096 { // the formatters are quadratic in the list lengths
+				_ = st.String()
+			}
+		})
+		if gen.EditLists(cs.R, p) {
+			cs.Count("used-then-edited/" + k.String())
+		}
 	}
 	return p
 }
